@@ -1502,7 +1502,9 @@ impl<T: ArrayValueSer> From<Array<T>> for ArrayRep<T> {
         }
         match arr.rank() {
             0 if !T::no_scalar() => ArrayRep::Scalar(arr.data[0].clone().into()),
-            1 => ArrayRep::List(T::make_collection(arr.data)),
+            1 if !T::list_reads_as_other_type(&arr.data) => {
+                ArrayRep::List(T::make_collection(arr.data))
+            }
             _ => ArrayRep::Metaless(arr.shape, T::make_collection(arr.data)),
         }
     }
@@ -1515,6 +1517,11 @@ trait ArrayValueSer: ArrayValue + fmt::Debug {
     fn make_data(collection: Self::Collection) -> CowSlice<Self>;
     /// Do not use the [`ArrayRep::Scalar`] variant
     fn no_scalar() -> bool {
+        false
+    }
+    /// Whether the [`ArrayRep::List`] form of this data would be read back
+    /// as an array of another type, so that the shape must be written too
+    fn list_reads_as_other_type(_data: &[Self]) -> bool {
         false
     }
 }
@@ -1641,6 +1648,12 @@ impl ArrayValueSer for char {
     }
     fn no_scalar() -> bool {
         true
+    }
+    fn list_reads_as_other_type(data: &[Self]) -> bool {
+        // A string that spells one of the named numbers is a number scalar
+        use serde::de::{IntoDeserializer, value::Error};
+        let s: String = data.iter().collect();
+        F64Rep::deserialize(IntoDeserializer::<Error>::into_deserializer(s.as_str())).is_ok()
     }
 }
 
